@@ -3,5 +3,6 @@
 p=$1; shift
 cd /repo && git apply "$p" || { echo "patch does not apply"; exit 3; }
 cd /verif
+export VERIF_EVIDENCE_DIR=/tmp/verif_seed_evidence
 for id in "$@"; do ./check $id | tail -4; echo "exit($id)=${PIPESTATUS[0]}"; done
 git -C /repo checkout -- .
